@@ -225,6 +225,10 @@ fn shrink(desc: &Value) -> Vec<Value> {
             Ok(d) => scen_list::shrink(&d).into_iter().map(|x| serde_json::to_value(x).unwrap()).collect(),
             Err(_) => vec![],
         },
+        Some("C11") => match serde_json::from_value::<crate::scen_life::LifeDesc>(desc.clone()) {
+            Ok(d) => crate::scen_life::shrink(&d).into_iter().map(|x| serde_json::to_value(x).unwrap()).collect(),
+            Err(_) => vec![],
+        },
         _ => vec![],
     }
 }
@@ -314,12 +318,15 @@ fn schedule_variants(c: &Value, workload_changed: bool) -> Vec<Value> {
 fn desc_size(d: &Value) -> Vec<u64> {
     let js = |v: &Value| serde_json::to_string(v).map(|s| s.len() as u64).unwrap_or(0);
     let threads = d["threads"].as_array().map(|t| t.len() as u64).unwrap_or(0);
-    let ops: u64 = d["threads"].as_array().map(|t| t.iter().map(|x| x["ops"].as_array().map(|o| o.len() as u64).unwrap_or(0)).sum()).unwrap_or(0)
-        + d["ops"].as_array().map(|o| o.len() as u64).unwrap_or(0);
+    let ops: u64 = d["threads"]
+        .as_array()
+        .map(|t| t.iter().map(|x| x.as_array().map(|o| o.len() as u64).unwrap_or_else(|| x["ops"].as_array().map(|o| o.len() as u64).unwrap_or(0))).sum())
+        .unwrap_or(0)
+        + d["setup"].as_array().map(|o| o.len() as u64).unwrap_or(0);
     let faults = d["faults"].as_array().map(|t| t.len() as u64).unwrap_or(0);
     let sched: Vec<u64> = d["schedule"].as_array().map(|a| a.iter().map(|x| x.as_u64().unwrap_or(0)).collect()).unwrap_or_default();
     let switches = sched.windows(2).filter(|w| w[0] != w[1]).count() as u64;
-    vec![threads, ops, faults, js(&d["init"]) + js(&d["threads"]) + js(&d["ops"]), switches, sched.len() as u64]
+    vec![threads, ops, faults, js(&d["init"]) + js(&d["threads"]) + js(&d["setup"]), switches, sched.len() as u64]
 }
 
 /// Greedy minimisation: walk the one-step simplifications in order (simplest
@@ -341,7 +348,7 @@ fn minimise(desc: &Value, class: &str, budget: Duration) -> (Value, u64) {
             let mut flat: Vec<Value> = Vec::new();
             let mut owner: Vec<usize> = Vec::new();
             for (k, c) in cands[i..hi].iter().enumerate() {
-                let changed = c["threads"] != cur["threads"] || c["init"] != cur["init"] || c["faults"] != cur["faults"] || c["ops"] != cur["ops"];
+                let changed = c["threads"] != cur["threads"] || c["init"] != cur["init"] || c["faults"] != cur["faults"] || c["setup"] != cur["setup"];
                 for v in schedule_variants(c, changed) {
                     flat.push(v);
                     owner.push(k);
@@ -384,6 +391,7 @@ fn minimise(desc: &Value, class: &str, budget: Duration) -> (Value, u64) {
 
 #[derive(Clone, Debug)]
 struct Known {
+    replay: Option<String>,
     id: String,
     property: String,
     status: String,
@@ -399,6 +407,7 @@ fn load_known() -> Vec<Known> {
     let mut out = Vec::new();
     for e in v["findings"].as_array().cloned().unwrap_or_default() {
         out.push(Known {
+            replay: e["replay"].as_str().map(String::from),
             id: e["id"].as_str().unwrap_or("").into(),
             property: e["property"].as_str().unwrap_or("").into(),
             status: e["status"].as_str().unwrap_or("").into(),
@@ -471,6 +480,30 @@ pub fn cmd_run(args: &[String]) -> i32 {
     }
     let mut new_violations: Vec<Value> = Vec::new();
     let mut known_hits: BTreeMap<String, (Known, u64)> = BTreeMap::new();
+    let mut notes: Vec<String> = Vec::new();
+    // open findings carry their minimal replay: run it first (the random workload leaves that exact pattern out)
+    for k in known.iter().filter(|k| k.status == "open" && k.property == prop) {
+        let Some(rp) = &k.replay else { continue };
+        let path = verif_root().join(rp);
+        let desc = std::fs::read_to_string(&path).ok().and_then(|t| serde_json::from_str::<Value>(&t).ok()).map(|v| v["desc"].clone());
+        let Some(desc) = desc else {
+            notes.push(format!("open finding {}: replay file {} is missing or unreadable", k.id, path.display()));
+            continue;
+        };
+        match exec_descs(&[desc], 1, false) {
+            Ok(o) => match first_violation(&o[0]) {
+                Some((c, d)) if matches_known(std::slice::from_ref(k), &prop, &c, &d).is_some() => {
+                    known_hits.entry(k.id.clone()).or_insert((k.clone(), 0)).1 += 1;
+                }
+                Some((c, d)) => {
+                    // the recorded input now fails differently: that is a new violation, handled like any other
+                    notes.push(format!("open finding {}: its replay now fails as {c}: {d}", k.id));
+                }
+                None => notes.push(format!("open finding {}: its recorded replay no longer fails on this tree", k.id)),
+            },
+            Err(e) => notes.push(format!("open finding {}: replay could not be executed: {e}", k.id)),
+        }
+    }
     let mut harness_errors: Vec<String> = agg.harness.iter().map(|h| h["detail"].as_str().unwrap_or("?").to_string()).collect();
     let replay_dir = verif_root().join("replays");
     let _ = std::fs::create_dir_all(&replay_dir);
@@ -594,11 +627,8 @@ pub fn cmd_run(args: &[String]) -> i32 {
     for (id, (k, n)) in &known_hits {
         println!("KNOWN-FINDING: property={} {} [{}; {} report(s) this run]", k.property, k.what, id, n);
     }
-    // open findings that did not show up at all are worth a note (not an alarm)
-    for k in known.iter().filter(|k| k.status == "open" && k.property == prop) {
-        if !known_hits.contains_key(&k.id) {
-            println!("note: open finding {} was not observed in this run", k.id);
-        }
+    for n in &notes {
+        println!("note: {n}");
     }
     for v in &new_violations {
         println!("VIOLATION property={} replay={}", prop, v["replay"].as_str().unwrap_or(""));
